@@ -260,6 +260,50 @@ Definition request_back (m : url_mode) (root : res) (r : pos) (vroot : option te
   xlet d := lift (traverser_call ([], root) (mkReq (Some (Percent.unquote (ru_vp ru))) None vroot)) in
   Val (t_context d, t_view_name d, match t_view_name d with [] => Some (t_context d) | _ => None end).
 
+(* ------------------------------------------------------------ primitives of the generated code *)
+(* The LEAVES onto which harness/c07/translate.py maps the primitive expressions of the translated
+   functions (Gen/Code_C07.v); the control flow of those functions is not written here. *)
+(* x.__parent__ : the root has None, any other resource the resource one level up *)
+Definition parent_of (p : pos) : option pos := match p with [] => None | _ => Some (removelast p) end.
+(* the same inside try/except AttributeError: every resource of a modelled tree HAS the attribute *)
+Definition attr_parent (p : pos) : option (option pos) := Some (parent_of p).
+(* x.__name__ : None for the root, else the key under which the parent holds x *)
+Definition attr_name (root : res) (p : pos) : option text :=
+  match p with
+  | [] => None
+  | _ => match names_at root p with Some ns => Some (last ns []) | None => Some [] end
+  end.
+(* n or d   for n a str-or-None *)
+Definition or_text (n : option text) (d : text) : text := match n with Some (c :: t) => c :: t | _ => d end.
+(* bound for a loop that follows __parent__ links: the depth of the resource (+1) *)
+Definition chain_fuel (o : option pos) : nat := match o with Some p => S (length p) | None => O end.
+Definition loop_fuel (o : option pos) : nat := S (chain_fuel o).
+Fixpoint omap {A B} (f : A -> out B) (l : list A) : out (list B) :=
+  match l with
+  | [] => Val []
+  | x :: r => xlet y := f x in xlet ys := omap f r in Val (y :: ys)
+  end.
+(* url_quote(text_(segment, 'utf-8'), safe) for a str segment *)
+Definition url_quote_r (seg safe : text) : out text := lift (quote_path_segment_safe seg safe).
+(* ascii_(path) *)
+Definition ascii_r (s : text) : out text := if is_ascii s then Val s else Err (EExn UnicodeEncodeError).
+(* s[0] == c  for a non-empty s *)
+Definition head_is (s : text) (c : N) : bool := match s with x :: _ => N.eqb x c | [] => false end.
+Definition nonempty {A} (l : list A) : bool := negb (is_nil l).
+(* Request.blank(path): all the traverser reads of it is PATH_INFO *)
+Definition blank_request (path : text) : out request :=
+  xlet pi := blank_path_info path in Val (mkReq (Some pi) None None).
+(* ResourceTreeTraverser(resource)(request) *)
+Definition run_traverser (root : res) (resource : pos) (q : request) : out tdict :=
+  match node_at root resource with
+  | Some n => lift (traverser_call (resource, n) q)
+  | None => Err EUnsupported
+  end.
+(* ResourceURL(resource, request): the request is represented by its HTTP_X_VHM_ROOT header *)
+Definition adapter_r (root : res) (resource : pos) (vroot : option text) : out rurl :=
+  resource_url_adapter url_vroot_mode root resource vroot.
+Definition py_to_text (z : Z) (l : text) : text := Verif.Lib.C02Expr.py_to z l.
+
 (* ------------------------------------------------------------ spec *)
 (* names the property quantifies over: non-empty, no '/', not '.' or '..',
    not starting with '@@' (and text, i.e. Unicode scalar values) *)
